@@ -320,6 +320,7 @@ def c15(rep, tier, seed):
 def c09(rep, tier, seed):
     """WhenAll / Join complete once, at the right moment, inputs in input order (When.tla)"""
     run_conc(rep, spec_when(tier, ALL_STRATS, "C09"), tier, seed, {"C09"})
+    seq.check_whenseq(rep, tier, seq.ALL_STRATS_SEQ, "C09")
     rep.assumptions += ["unique inputs; static and dynamic forms; n = 2 with all schedules up to the preemption bound, n = 3 random"]
 
 
@@ -327,6 +328,7 @@ def c09(rep, tier, seed):
 def c10(rep, tier, seed):
     """WhenAny completes once with the right winner for each fail policy (When.tla)"""
     run_conc(rep, spec_when(tier, ANY_STRATS, "C10"), tier, seed, {"C10"})
+    seq.check_whenseq(rep, tier, seq.ANY_STRATS_SEQ, "C10")
     rep.assumptions += ["unique inputs; static and dynamic forms; n = 2 with all schedules up to the preemption bound, n = 3 random"]
 
 
